@@ -16,10 +16,11 @@
 (*     absent or denotes s; the claimed width is -1 or the width of s.     *)
 (*     verdict "ok" (detail = number of recs judged), "skip-notbound1",    *)
 (*     "bad" (detail = <<indices with a wrong sort, with a wrong width>>). *)
-(*  "equiv": script, path (of the replaced term; length 1 = a whole        *)
-(*     define-fun command), repl.  Same sort; same value under every       *)
-(*     assignment of the free constants and of the variables bound around  *)
-(*     the position.  verdict "ok" / "sort" / "value" / "skip-...".        *)
+(*  "equiv": script, props = [[path, replacement] ...] (path of the        *)
+(*     replaced term; length 1 = a whole define-fun command).  Same sort;  *)
+(*     same value under every assignment of the free constants and of the  *)
+(*     variables bound around the position.  verdict "list", detail = one  *)
+(*     <<"ok" | "sort" | "value" | "skip-...", info>> per proposal.        *)
 (*  "sortsyn": script, orig, repl: two sort expressions denote one sort.   *)
 (*  "samesort": script, props = [[path, replacement, fresh decls] ...]:    *)
 (*     each replacement has the sort of the term at path it replaces.      *)
@@ -194,25 +195,29 @@ JudgePair(orig, repl, cx, env) ==
        ELSE IF both # prs THEN <<"ok-partial", Cardinality(both)>>
        ELSE <<"ok", Cardinality(both)>>
 
+(* one proposal: p = [path, replacement] *)
+EquivOne(script, env, p) ==
+    IF Len(p[1]) = 1 THEN
+        \* a define-fun command replaced by another define-fun of the
+        \* same name, parameters and sort: compare the bodies
+        LET o == script[p[1][1]]
+            r == p[2]
+        IN IF HeadSym(o) = "define-fun" /\ IsList(r) /\ HeadSym(r) = "define-fun"
+              /\ Len(o.k) = 5 /\ Len(r.k) = 5
+              /\ o.k[2] = r.k[2] /\ o.k[3] = r.k[3]
+           THEN IF SortVal(o.k[4], env) # SortVal(r.k[4], env)
+                   \/ SortVal(o.k[4], env) = Ill
+                THEN <<"sort", <<SortVal(o.k[4], env), SortVal(r.k[4], env)>>>>
+                ELSE JudgePair(o.k[5], r.k[5],
+                               ContextAt(script, <<p[1][1], 5>>, env, r), env)
+           ELSE <<"skip-command", 0>>
+    ELSE LET cx == ContextAt(script, p[1], env, p[2])
+         IN JudgePair(cx.t, p[2], cx, env)
+
+(* props = [[path, replacement] ...]; detail = one verdict per proposal *)
 VerdictEquiv(c) ==
-    LET script == c.script
-        env == EnvOf(script)
-    IN IF Len(c.path) = 1 THEN
-           \* a define-fun command replaced by another define-fun of the
-           \* same name, parameters and sort: compare the bodies
-           LET o == script[c.path[1]]
-               r == c.repl
-           IN IF HeadSym(o) = "define-fun" /\ IsList(r) /\ HeadSym(r) = "define-fun"
-                 /\ Len(o.k) = 5 /\ Len(r.k) = 5
-                 /\ o.k[2] = r.k[2] /\ o.k[3] = r.k[3]
-              THEN IF SortVal(o.k[4], env) # SortVal(r.k[4], env)
-                      \/ SortVal(o.k[4], env) = Ill
-                   THEN <<"sort", <<SortVal(o.k[4], env), SortVal(r.k[4], env)>>>>
-                   ELSE JudgePair(o.k[5], r.k[5],
-                                  ContextAt(script, <<c.path[1], 5>>, env, r), env)
-              ELSE <<"skip-command", 0>>
-       ELSE LET cx == ContextAt(script, c.path, env, c.repl)
-            IN JudgePair(cx.t, c.repl, cx, env)
+    LET env == EnvOf(c.script)
+    IN <<"list", [j \in 1..Len(c.props) |-> EquivOne(c.script, env, c.props[j])]>>
 
 VerdictSortSyn(c) ==
     LET env == EnvOf(c.script)
